@@ -93,7 +93,7 @@ package dataset
 //@   pure
 
 //@ unit (*deduplicationStrategy).eval
-//@   prop C12 C01 C02
+//@   prop C12 C01 C02 C03 C18
 //@   ghost equalG bool = false
 //@   requires d != nil && e != nil && d.changeBuffer != nil && d.counts != nil && len(jsonKey) == 24
 //@   requires !isFirstVersion ==> d.prev != nil
@@ -115,6 +115,8 @@ package dataset
 // differ somewhere (equal lists mean both versions were written in one batch and share a single key, which must stay)
 //@   ghost curKeysG [][]uint8
 //@   ghost prevKeysG [][]uint8
+//@   at call DeepEqual#1 before
+//@     assert [C12,C01,C02,C03,C18:a-reference-counts-as-repeated-only-when-the-remembered-version-carries-the-same-value-for-that-predicate] (has(d.prev.References, k) ==> $arg0 == d.prev.References[k]) && (!has(d.prev.References, k) ==> isnil($arg0)) && $arg1 == stringOrArrayValue
 //@   at call processRefs#1 before
 //@     assert [C12,C01,C02:repeated-reference-keys-are-computed-for-this-version-and-the-predicate-at-hand] $arg0 == e && $arg1 == jsonKey && $arg2 == txn && $arg5 == k && $arg4 == stringOrArrayValue
 //@   at call processRefs#1
